@@ -31,6 +31,14 @@
 (* nolen") and none for those that stay uniquely decodable ("nocount": the    *)
 (* length suffixes alone suffice, decoding from the end; "nodelim": the '$'   *)
 (* is redundant once the length is there).                                    *)
+(* A third class is injective on short strings over single bytes and          *)
+(* ambiguous as soon as an input EMBEDS what the framing writes behind an     *)
+(* element: the 8-byte field holding the number of elements, a constant, the  *)
+(* index, the first length, the total, the length modulo 256 or in one byte   *)
+(* instead of the length (EmbedAmbiguous, LongAmbiguous).  For those the      *)
+(* domain has SYMBOLS that are whole 9-byte blocks '$' o LE64(k) (BlockVals), *)
+(* and HashFrameAdv.tla constructs the colliding pairs.                       *)
+(* HashHistory.tla: histories of calls with re-used caller objects.           *)
 (*                                                                            *)
 (* State machine: t grows by one input per step up to MaxCount inputs, so the *)
 (* reachable states are exactly the tuples of the domain; with VIEW FrameView *)
